@@ -2,6 +2,7 @@ SPECIFICATION Spec
 CONSTANTS
   MaxN = 3
   MaxK = 2
+  PPChoices = {TRUE, FALSE}
   AtomicDoneRelease = FALSE
 INVARIANTS Invariants
 PROPERTIES Refines AlwaysReturns Terminates
